@@ -44,6 +44,8 @@ const (
 	kFMat   // [][]float32 field: kept outside, read and written through external calls
 	kTok    // a pointer to something outside the translation, carried as an integer token (0 = nil)
 	kStrTok // a string carried as an integer token (units whose strings come from the outside world)
+	kPixRow // a row of a frame's pixel grid obtained by `range X.Pix`: represented by its length (a Z)
+	kBytes  // a []byte value built inside the translated code (literals, append): a Gallina list Z
 )
 
 type ty struct {
@@ -57,11 +59,11 @@ type ty struct {
 
 func (t ty) coq() string {
 	switch t.k {
-	case kInt, kErr, kHandle, kTime, kExt, kNil, kFloat, kTok, kStrTok:
+	case kInt, kErr, kHandle, kTime, kExt, kNil, kFloat, kTok, kStrTok, kPixRow:
 		return "Z"
 	case kBool:
 		return "bool"
-	case kHList:
+	case kHList, kBytes:
 		return "list Z"
 	case kStruct:
 		return t.name
@@ -87,7 +89,7 @@ func (t ty) zero() string {
 		return "(-1)"
 	case kBool:
 		return "false"
-	case kHList:
+	case kHList, kBytes:
 		return "[]"
 	case kStr:
 		return "\"\"%string"
@@ -119,6 +121,9 @@ type unit struct {
 	skip    map[string]bool
 	opaque  []string // type expressions (source text) carried as tokens
 	strTok  bool     // strings are tokens handed around by the outside world
+	byteTok bool     // []byte values are tokens: the bytes live in the outside world
+	extLits bool     // composite literals of types outside the translation are built by the outside world ("new:<Type>{keys}")
+	nilZero bool     // `return nil, err` where a *T of a translated struct T is expected: the zero record (callers test the error)
 }
 
 type world struct {
@@ -160,6 +165,9 @@ func (w *world) goType(e ast.Expr) ty {
 		}
 		if w.cur.strTok && txt == "string" {
 			return ty{k: kStrTok}
+		}
+		if w.cur.byteTok && txt == "[]byte" {
+			return ty{k: kTok, name: "[]byte"}
 		}
 	}
 	switch x := e.(type) {
@@ -299,6 +307,9 @@ type fnTr struct {
 	tmp      int
 	joins    int
 	loops    [][]string // inside loop bodies: per enclosing loop, the Go names of its state variables
+
+	// loops made from `range X.Pix`: Go evaluates the range expression once, whatever the body does
+	once map[*ast.ForStmt]bool
 }
 
 func (f *fnTr) fresh(base string) string {
@@ -388,6 +399,8 @@ func (f *fnTr) asArg(v val, src ast.Expr) string {
 		return "AFrame " + v.code
 	case kHList:
 		return "AFrames " + v.code
+	case kBytes:
+		return "ABytes " + v.code
 	}
 	return "ASym " + coqString(f.path(src))
 }
@@ -401,6 +414,9 @@ func (f *fnTr) pure(e ast.Expr, en env) bool {
 			if id, ok := x.Fun.(*ast.Ident); ok {
 				switch id.Name {
 				case "len", "int", "int64", "int32", "uint16", "uint32", "uint8", "byte", "uint64", "uint":
+					if id.Name == "len" && (isPixSelector(x.Args) || f.isByteTokIdent(x.Args, en)) {
+						p = false // len(X.Pix), len of a byte-slice token: asked of the outside world
+					}
 					return true // (of a float operand: made impure by the operand itself)
 				}
 			}
@@ -865,6 +881,12 @@ func (f *fnTr) call(c *ast.CallExpr, en env, k func(val, env) string) string {
 		t := f.newTmp()
 		return fmt.Sprintf("%s <- call_ext ext %s [] ;;\n%s", t, coqString(strings.TrimPrefix(id.Name, "__fmatlen:")+".len"), k(val{t, ty{k: kInt}}, en))
 	}
+	if id, ok := c.Fun.(*ast.Ident); ok && id.Name == "__pixrow" && len(c.Args) == 2 {
+		return f.pixRowTake(c, en, k)
+	}
+	if code, ok := f.byteConv(c, en, k); ok {
+		return code
+	}
 	if id, ok := c.Fun.(*ast.Ident); ok {
 		if _, shadow := en.lookup(id.Name); !shadow {
 			switch id.Name {
@@ -942,7 +964,20 @@ func (f *fnTr) call(c *ast.CallExpr, en env, k func(val, env) string) string {
 				}
 				return k(val{"tt", ty{k: kUnknown}}, en)
 			case "len":
+				if code, ok := f.pixLen(c, en, k); ok {
+					return code
+				}
 				return f.expr(c.Args[0], en, func(v val, en env) string {
+					if v.t.k == kPixRow {
+						return k(val{v.code, ty{k: kInt}}, en) // the row's length was asked for when the row was taken
+					}
+					if v.t.k == kTok && v.t.name == "[]byte" {
+						t := f.newTmp()
+						return fmt.Sprintf("%s <- call_ext ext \"bytes.len\"%%string [AInt %s] ;;\n%s", t, v.code, k(val{t, ty{k: kInt}}, en))
+					}
+					if v.t.k == kBytes {
+						return k(val{"(go_len " + v.code + ")", ty{k: kInt}}, en)
+					}
 					if v.t.k != kHList {
 						fail("len of %s", exprString(c.Args[0]))
 					}
@@ -950,6 +985,10 @@ func (f *fnTr) call(c *ast.CallExpr, en env, k func(val, env) string) string {
 				})
 			case "copy":
 				return f.copyCall(c, en, k)
+			case "append":
+				if code, ok := f.appendBytes(c, en, k); ok {
+					return code
+				}
 			}
 		}
 	}
@@ -1022,6 +1061,9 @@ func (f *fnTr) call(c *ast.CallExpr, en env, k func(val, env) string) string {
 			return fmt.Sprintf("%s <- call_ext ext %s [%s] ;;\n%s", t, coqString(name), strings.Join(parts, "; "), k(val{t, rt}, en))
 		}
 		a := c.Args[i]
+		if code, ok := f.byteSliceArg(a, en, &parts, func(en env) string { return rec(i+1, en) }); ok {
+			return code
+		}
 		if f.isOpaque(a, en) || !f.translatable(a, en) {
 			parts = append(parts, "ASym "+coqString(f.path(a)))
 			return rec(i+1, en)
@@ -1033,7 +1075,7 @@ func (f *fnTr) call(c *ast.CallExpr, en env, k func(val, env) string) string {
 	}
 	// a method called on a token (a pointer or string of the outside world): the token is the first argument
 	if sel, ok := c.Fun.(*ast.SelectorExpr); ok && !f.isOpaque(sel.X, en) && f.translatable(sel.X, en) {
-		if kd := f.kindOf(sel.X, en); kd == kTok || kd == kStrTok || (kd == kExt && f.u.strTok) {
+		if kd := f.kindOf(sel.X, en); kd == kTok || kd == kStrTok || (kd == kExt && (f.u.strTok || f.u.byteTok)) {
 			return f.expr(sel.X, en, func(h val, en env) string {
 				name = "obj." + sel.Sel.Name
 				parts = append(parts, "AInt "+h.code)
@@ -1228,6 +1270,9 @@ func (f *fnTr) finishReturn(v string, en env, defers []deferred) string {
 }
 
 func (f *fnTr) coerceResult(v val, want ty) string {
+	if want.k == kStruct && v.t.k == kNil && f.u.nilZero {
+		return f.zeroRecord(want.name)
+	}
 	switch want.k {
 	case kBool:
 		return f.asBool(v)
@@ -1397,6 +1442,10 @@ func (f *fnTr) block(items []item, en env, defers []deferred) string {
 	case *ast.ForStmt:
 		return f.forStmt(s, rest, en, defers)
 	case *ast.RangeStmt:
+		// for y, row := range X.Pix
+		if fs, ok := f.rangePix(s, en); ok {
+			return f.forStmt(fs, rest, en, defers)
+		}
 		// for i := range X  (index only) over a slice of frame handles or a float matrix
 		if s.Value != nil || s.Key == nil || s.Tok != token.DEFINE {
 			fail("range loop form")
@@ -1559,6 +1608,9 @@ func (f *fnTr) assign(s *ast.AssignStmt, rest []item, en env, defers []deferred)
 		}
 		if id, ok := lhs.(*ast.Ident); ok && id.Name == "_" {
 			return f.expr(rhs, en, func(_ val, en env) string { return f.block(rest, en, defers) })
+		}
+		if code, ok := f.statusLiteral(s, func(en env) string { return f.block(rest, en, defers) }, en); ok {
+			return code
 		}
 		return f.expr(rhs, en, func(v val, en env) string {
 			if id, ok := lhs.(*ast.Ident); ok {
@@ -1922,7 +1974,7 @@ func (f *fnTr) forStmt(s *ast.ForStmt, rest []item, outer env, defers []deferred
 		}
 		return true
 	})
-	if bad {
+	if bad && !f.once[s] {
 		fail("loop bound %s changes inside the loop", exprString(cond.Y))
 	}
 	return f.expr(cond.Y, en, func(hv val, en env) string {
@@ -2371,6 +2423,11 @@ var fnUnits = []*unit{
 		skip:  map[string]bool{}, opaque: []string{"*cptv.FileWriter"}, strTok: true},
 	{name: "LogLimiter", dir: "loglimiter", files: []string{"loglimiter.go"}, structs: []string{"LogLimiter"},
 		skip: map[string]bool{"LogLimiter.Printf": true}},
+	{name: "Boson", dir: "cmd/thermal-recorder", files: []string{"boson.go"}, funcs: []string{"convertRawBosonFrame"},
+		skip: map[string]bool{}, byteTok: true, extLits: true},
+	{name: "ThermalRaw", dir: "cmd/thermal-writer", files: []string{"thermalraw.go"}, structs: []string{"Builder"},
+		funcs: []string{"newBuilder", "writeFrame", "newThermalRaw"}, skip: map[string]bool{},
+		opaque: []string{"io.WriteCloser", "*cptv.FieldWriter"}, byteTok: true, nilZero: true},
 }
 
 // ---------------------------------------------------------------------------------------
@@ -2543,7 +2600,13 @@ func (f *fnTr) zeroRecord(name string) string {
 // zero where the literal is silent; values given for fields outside the translation are
 // evaluated only if they are calls (for what they do), otherwise ignored
 func (f *fnTr) composite(cl *ast.CompositeLit, en env, k func(val, env) string) string {
+	if at, ok := cl.Type.(*ast.ArrayType); ok && f.u.byteTok && isByteSlice(at) {
+		return f.bytesLit(cl, en, k)
+	}
 	t := f.w.goType(cl.Type)
+	if t.k != kStruct && f.u.extLits {
+		return f.extComposite(cl, en, k)
+	}
 	if t.k != kStruct {
 		return k(val{"tt", ty{k: kUnknown}}, en) // a value of a type outside the translation
 	}
@@ -2635,4 +2698,335 @@ func onlyIndexAssigned(body ast.Node, name string) bool {
 		return ok
 	})
 	return ok
+}
+
+// ---------------------------------------------------------------------------------------
+// raw-frame parsers: byte slices as tokens, rows of pixel grids, telemetry literals
+
+func isPixSelector(args []ast.Expr) bool {
+	if len(args) != 1 {
+		return false
+	}
+	sel, ok := args[0].(*ast.SelectorExpr)
+	return ok && sel.Sel.Name == "Pix"
+}
+
+// tyOf: the type of a translatable expression (dry run)
+func (f *fnTr) tyOf(e ast.Expr, en env) (t ty) {
+	defer func() {
+		if r := recover(); r != nil {
+			if _, is := r.(unsupported); is {
+				t = ty{k: kUnknown}
+				return
+			}
+			panic(r)
+		}
+	}()
+	saveTmp := f.tmp
+	f.expr(e, en, func(v val, _ env) string { t = v.t; return "" })
+	f.tmp = saveTmp
+	return t
+}
+
+// len(X.Pix) for a frame handle X: the number of rows is asked of the outside world
+func (f *fnTr) pixLen(c *ast.CallExpr, en env, k func(val, env) string) (string, bool) {
+	if len(c.Args) != 1 {
+		return "", false
+	}
+	h, ok := f.pixBase(c.Args[0], en)
+	if !ok {
+		return "", false
+	}
+	return f.expr(h, en, func(hv val, en env) string {
+		t := f.newTmp()
+		return fmt.Sprintf("%s <- call_ext ext \"Frame.Pix.len\"%%string [AFrame %s] ;;\n%s", t, hv.code, k(val{t, ty{k: kInt}}, en))
+	}), true
+}
+
+// for y, row := range X.Pix { body }   becomes   for y := 0; y < len(X.Pix); y++ { row := __pixrow(X, y); body }
+// (the range expression is evaluated once, as forStmt evaluates its bound once).  Of a row only its
+// length is represented: len(row) and `range row` are translated, any other use of it fails.
+func (f *fnTr) rangePix(s *ast.RangeStmt, en env) (*ast.ForStmt, bool) {
+	h, ok := f.pixBase(s.X, en)
+	if !ok {
+		return nil, false
+	}
+	key, ok := s.Key.(*ast.Ident)
+	if !ok || s.Tok != token.DEFINE || key.Name == "_" {
+		fail("range over a pixel grid: loop form")
+	}
+	body := s.Body
+	if s.Value != nil {
+		row, ok := s.Value.(*ast.Ident)
+		if !ok {
+			fail("range over a pixel grid: row variable")
+		}
+		if row.Name != "_" {
+			if assigns(s.Body, row.Name) {
+				fail("range over a pixel grid: the row variable %s is assigned", row.Name)
+			}
+			take := &ast.AssignStmt{Lhs: []ast.Expr{row}, Tok: token.DEFINE,
+				Rhs: []ast.Expr{&ast.CallExpr{Fun: &ast.Ident{Name: "__pixrow"}, Args: []ast.Expr{h, &ast.Ident{Name: key.Name}}}}}
+			body = &ast.BlockStmt{List: append([]ast.Stmt{take}, s.Body.List...)}
+		}
+	}
+	fs := &ast.ForStmt{
+		Init: &ast.AssignStmt{Lhs: []ast.Expr{key}, Tok: token.DEFINE, Rhs: []ast.Expr{&ast.BasicLit{Kind: token.INT, Value: "0"}}},
+		Cond: &ast.BinaryExpr{X: &ast.Ident{Name: key.Name}, Op: token.LSS, Y: &ast.CallExpr{Fun: &ast.Ident{Name: "len"}, Args: []ast.Expr{s.X}}},
+		Post: &ast.IncDecStmt{X: &ast.Ident{Name: key.Name}, Tok: token.INC},
+		Body: body,
+	}
+	if f.once == nil {
+		f.once = map[*ast.ForStmt]bool{}
+	}
+	f.once[fs] = true
+	return fs, true
+}
+
+// __pixrow(X, y): the row X.Pix[y] taken by a range loop (y is in range by construction)
+func (f *fnTr) pixRowTake(c *ast.CallExpr, en env, k func(val, env) string) string {
+	return f.expr(c.Args[0], en, func(hv val, en env) string {
+		if hv.t.k != kHandle {
+			fail("row of something that is not a frame")
+		}
+		return f.expr(c.Args[1], en, func(yv val, en env) string {
+			t := f.newTmp()
+			return fmt.Sprintf("%s <- call_ext ext \"Frame.Pix.rowlen\"%%string [AFrame %s; AInt %s] ;;\n%s", t, hv.code, yv.code, k(val{t, ty{k: kPixRow}}, en))
+		})
+	})
+}
+
+// an argument b[lo:hi] of a call that leaves the translation, b a byte-slice token: the bounds are
+// checked as Go checks them (0 <= lo <= hi <= cap(b); the capacity is asked of the outside world),
+// then the token and the two offsets are passed
+func (f *fnTr) byteSliceArg(a ast.Expr, en env, parts *[]string, cont func(env) string) (string, bool) {
+	se, ok := a.(*ast.SliceExpr)
+	if !ok || f.isOpaque(se.X, en) {
+		return "", false
+	}
+	if t := f.tyOf(se.X, en); t.k != kTok || t.name != "[]byte" {
+		return "", false
+	}
+	if se.Slice3 {
+		fail("3-index slice")
+	}
+	return f.expr(se.X, en, func(b val, en env) string {
+		lo := func(k2 func(val, env) string) string {
+			if se.Low == nil {
+				return k2(val{"0", ty{k: kInt}}, en)
+			}
+			return f.expr(se.Low, en, k2)
+		}
+		return lo(func(lov val, en env) string {
+			hi := func(k2 func(val, env) string) string {
+				if se.High == nil {
+					t := f.newTmp()
+					return fmt.Sprintf("%s <- call_ext ext \"bytes.len\"%%string [AInt %s] ;;\n%s", t, b.code, k2(val{t, ty{k: kInt}}, en))
+				}
+				return f.expr(se.High, en, k2)
+			}
+			return hi(func(hiv val, en env) string {
+				if (lov.t.k != kInt && lov.t.k != kExt) || (hiv.t.k != kInt && hiv.t.k != kExt) {
+					fail("slice bounds of %s", exprString(a))
+				}
+				tc, tb := f.newTmp(), f.newTmp()
+				*parts = append(*parts, "AInt "+b.code, "AInt "+lov.code, "AInt "+hiv.code)
+				return fmt.Sprintf("%s <- call_ext ext \"bytes.cap\"%%string [AInt %s] ;;\n%s <- (if ((%s <? 0) || (%s <? %s) || (%s >? %s)) then panic else ret tt) ;;\n%s",
+					tc, b.code, tb, lov.code, hiv.code, lov.code, hiv.code, tc, cont(en))
+			})
+		})
+	}), true
+}
+
+// X.Status = cptvframe.Telemetry{K1: v1, ...} on a frame handle X: all telemetry fields are reset to
+// their zero values, then the listed ones are set, in source order (the values must be pure)
+func (f *fnTr) statusLiteral(s *ast.AssignStmt, cont func(env) string, en env) (string, bool) {
+	sel, ok := s.Lhs[0].(*ast.SelectorExpr)
+	if !ok || sel.Sel.Name != "Status" {
+		return "", false
+	}
+	cl, ok := s.Rhs[0].(*ast.CompositeLit)
+	if !ok || cl.Type == nil || exprString(cl.Type) != "cptvframe.Telemetry" {
+		return "", false
+	}
+	if f.isOpaque(sel.X, en) || !f.translatable(sel.X, en) || f.kindOf(sel.X, en) != kHandle {
+		return "", false
+	}
+	if s.Tok != token.ASSIGN {
+		fail("assignment operator %s on a frame's telemetry", s.Tok)
+	}
+	return f.expr(sel.X, en, func(h val, en env) string {
+		t := f.newTmp()
+		code := fmt.Sprintf("%s <- call_ext ext \"Frame.Status.reset\"%%string [AFrame %s] ;;\n", t, h.code)
+		var rec func(i int, en env) string
+		rec = func(i int, en env) string {
+			if i == len(cl.Elts) {
+				return cont(en)
+			}
+			kv, ok := cl.Elts[i].(*ast.KeyValueExpr)
+			if !ok {
+				fail("positional telemetry literal")
+			}
+			id, ok := kv.Key.(*ast.Ident)
+			if !ok {
+				fail("telemetry literal key")
+			}
+			if !f.pure(kv.Value, en) {
+				fail("telemetry literal: value of %s is not pure", id.Name)
+			}
+			return f.expr(kv.Value, en, func(v val, en env) string {
+				if v.t.k != kInt && v.t.k != kBool {
+					fail("telemetry literal: value of %s", id.Name)
+				}
+				t := f.newTmp()
+				return fmt.Sprintf("%s <- call_ext ext %s [AFrame %s; %s] ;;\n%s", t, coqString("Frame.Status.set."+id.Name), h.code, f.asArg(v, kv.Value), rec(i+1, en))
+			})
+		}
+		return code + rec(0, en)
+	}), true
+}
+
+// T{K1: v1, ...} of a type outside the translation (units with extLits): built by the outside
+// world, which is given the values in source order; the name lists the keys
+func (f *fnTr) extComposite(cl *ast.CompositeLit, en env, k func(val, env) string) string {
+	if cl.Type == nil {
+		fail("composite literal without a type")
+	}
+	var keys, parts []string
+	var rec func(i int, en env) string
+	rec = func(i int, en env) string {
+		if i == len(cl.Elts) {
+			t := f.newTmp()
+			name := "new:" + exprString(cl.Type) + "{" + strings.Join(keys, ",") + "}"
+			return fmt.Sprintf("%s <- call_ext ext %s [%s] ;;\n%s", t, coqString(name), strings.Join(parts, "; "), k(val{t, ty{k: kExt}}, en))
+		}
+		kv, ok := cl.Elts[i].(*ast.KeyValueExpr)
+		if !ok {
+			fail("positional composite literal")
+		}
+		id, ok := kv.Key.(*ast.Ident)
+		if !ok {
+			fail("composite literal key")
+		}
+		keys = append(keys, id.Name)
+		if f.isOpaque(kv.Value, en) || !f.translatable(kv.Value, en) {
+			parts = append(parts, "ASym "+coqString(f.path(kv.Value)))
+			return rec(i+1, en)
+		}
+		return f.expr(kv.Value, en, func(v val, en env) string {
+			parts = append(parts, f.asArg(v, kv.Value))
+			return rec(i+1, en)
+		})
+	}
+	return rec(0, en)
+}
+
+// ---------------------------------------------------------------------------------------
+// byte slices built inside the translated code (units with byteTok): Gallina lists
+
+func isByteSlice(at *ast.ArrayType) bool {
+	if at.Len != nil {
+		return false
+	}
+	id, ok := at.Elt.(*ast.Ident)
+	return ok && (id.Name == "byte" || id.Name == "uint8")
+}
+
+func (f *fnTr) isByteTokIdent(args []ast.Expr, en env) bool {
+	if len(args) != 1 {
+		return false
+	}
+	id, ok := args[0].(*ast.Ident)
+	if !ok {
+		return false
+	}
+	b, ok := en.lookup(id.Name)
+	return ok && b.t.k == kTok && b.t.name == "[]byte"
+}
+
+// a value where a byte is expected (an element of a []byte literal, an appended element): values
+// of type byte pass, integer constants must be in range (Go rejects the others at compile time)
+func (f *fnTr) asByte(v val, src ast.Expr) string {
+	if v.t.k == kInt && v.t.unsigned && v.t.bits == 8 {
+		return v.code
+	}
+	if v.t.k == kInt {
+		if n, err := strconv.ParseInt(strings.Trim(v.code, "()"), 10, 64); err == nil && n >= 0 && n <= 255 {
+			return v.code
+		}
+	}
+	fail("a byte is expected here: %s", exprString(src))
+	return ""
+}
+
+// []byte(s) for a string constant s: the list of its bytes
+func (f *fnTr) byteConv(c *ast.CallExpr, en env, k func(val, env) string) (string, bool) {
+	at, ok := c.Fun.(*ast.ArrayType)
+	if !ok || !f.u.byteTok || !isByteSlice(at) || len(c.Args) != 1 {
+		return "", false
+	}
+	var e ast.Expr = c.Args[0]
+	if id, ok := e.(*ast.Ident); ok {
+		if _, shadow := en.lookup(id.Name); !shadow {
+			if ce, ok := f.w.consts[id.Name]; ok {
+				e = ce
+			}
+		}
+	}
+	bl, ok := e.(*ast.BasicLit)
+	if !ok || bl.Kind != token.STRING {
+		fail("[]byte(...) of something that is not a string constant: %s", exprString(c.Args[0]))
+	}
+	str, err := strconv.Unquote(bl.Value)
+	if err != nil {
+		fail("string literal %s", bl.Value)
+	}
+	var parts []string
+	for i := 0; i < len(str); i++ {
+		parts = append(parts, strconv.Itoa(int(str[i])))
+	}
+	return k(val{"[" + strings.Join(parts, "; ") + "]", ty{k: kBytes}}, en), true
+}
+
+// []byte{e1, ..., en}
+func (f *fnTr) bytesLit(cl *ast.CompositeLit, en env, k func(val, env) string) string {
+	var parts []string
+	var rec func(i int, en env) string
+	rec = func(i int, en env) string {
+		if i == len(cl.Elts) {
+			return k(val{"[" + strings.Join(parts, "; ") + "]", ty{k: kBytes}}, en)
+		}
+		if _, keyed := cl.Elts[i].(*ast.KeyValueExpr); keyed {
+			fail("keyed []byte literal")
+		}
+		return f.expr(cl.Elts[i], en, func(v val, en env) string {
+			parts = append(parts, f.asByte(v, cl.Elts[i]))
+			return rec(i+1, en)
+		})
+	}
+	return rec(0, en)
+}
+
+// append(bs, e1, ..., en) on a byte list
+func (f *fnTr) appendBytes(c *ast.CallExpr, en env, k func(val, env) string) (string, bool) {
+	if len(c.Args) < 1 || !f.u.byteTok || c.Ellipsis != token.NoPos {
+		return "", false
+	}
+	if f.isOpaque(c.Args[0], en) || f.tyOf(c.Args[0], en).k != kBytes {
+		return "", false
+	}
+	return f.expr(c.Args[0], en, func(bs val, en env) string {
+		var parts []string
+		var rec func(i int, en env) string
+		rec = func(i int, en env) string {
+			if i == len(c.Args) {
+				return k(val{"(" + bs.code + " ++ [" + strings.Join(parts, "; ") + "])", ty{k: kBytes}}, en)
+			}
+			return f.expr(c.Args[i], en, func(v val, en env) string {
+				parts = append(parts, f.asByte(v, c.Args[i]))
+				return rec(i+1, en)
+			})
+		}
+		return rec(1, en)
+	}), true
 }
